@@ -108,7 +108,11 @@ CHECKS = {
                 "receive over two clients, loss, good rounds; clauses of C01-C03 per (client, direction, channel) stream make cross-delivery, "
                 "duplication and missing broadcast targets visible, C11_NotStarved (a queued message for which the tick's budget still has room "
                 "is not left behind because another channel stalls); replay + seeded-random 2-3 client schedules with one client hostile, "
-                "stalled, disconnected or with a stalled reliable channel."),
+                "stalled, disconnected or with a stalled reliable channel; the clauses of C08 on every stream (an ack caused by one channel's "
+                "packet must not release another channel's message) over mixed-channel schedules with same-kind / asymmetric / sparse-id "
+                "layouts; on the full UDP stack: two holders of tokens for ONE client id racing through the handshake (C11_Isolation: "
+                "everything obtained under an id comes from the holder of that session) and departures that free slots around a bystander "
+                "(C11_Bystander)."),
     "C12": _msg("MC_Server.tla: every sequence of up to 5 public calls (add/remove connection, disconnect, set_connected/connecting, transport "
                 "disconnect, get_event, send on a 10-byte channel, flush, deliver, undecodable packet) over two ids; clauses C12_Absorbing, "
                 "C12_Alternation, C12_Reason; every sequence of up to 6 local-client / table / status / traffic calls over one id "
